@@ -11,7 +11,48 @@ import (
 
 // pgrender rows.ndjson outdir [sha1|sha256]: write the bytes of every row as outdir/rNNNN.pack
 // (hand reproduction of a case; no verdict).
-func init() { rep.Register("pgrender", pgrender) }
+func init() {
+	rep.Register("pgrender", pgrender)
+	rep.Register("pgprobe", pgprobe)
+}
+
+// pgprobe rows.ndjson [sha1|sha256]: run every go-git leg on every row and print what it returned and what it
+// left in its storage (hand reproduction of a case against the real code; no verdict).
+func pgprobe(args []string) error {
+	if len(args) < 1 {
+		return fmt.Errorf("usage: pgprobe rows.ndjson [sha1|sha256]")
+	}
+	f := fmtSHA1
+	if len(args) > 1 && args[1] == "sha256" {
+		f = fmtSHA256
+	}
+	n := 0
+	err := rep.ReadNDJSON(args[0], func(line []byte) error {
+		var row pgRow
+		if err := json.Unmarshal(line, &row); err != nil {
+			return err
+		}
+		rd := render(f, &row)
+		n++
+		fmt.Fprintf(os.Stderr, "row %d shape=[%s] tags=%v spec=%s bytes=%d\n", n, shapeKey(&row), row.Tags, row.V, len(rd.bytes))
+		for _, l := range c09Legs {
+			res := runLeg(l, f, rd.bytes)
+			fmt.Fprintf(os.Stderr, "  %-28s err=%v panic=%v\n", l.name, res.err, res.panicv)
+			for _, y := range res.yields {
+				if y.hasData {
+					fmt.Fprintf(os.Stderr, "      holds %s %s %d bytes, content hashes to %x\n", y.id, y.typ, len(y.content), f.objectID(y.typ, y.content))
+				}
+			}
+		}
+		return nil
+	})
+	if err != nil {
+		return err
+	}
+	r := rep.New()
+	r.Eval(n)
+	return r.Emit()
+}
 
 func pgrender(args []string) error {
 	if len(args) < 2 {
